@@ -90,7 +90,7 @@ func c17Yaml(probe string, fi, di int, d c17Doc) string {
 	}
 	if di == 0 {
 		q, _ := json.Marshal(probe)
-		b.WriteString("services:\n  s:\n    image: x\n    labels:\n      probe: " + string(q) + "\n")
+		b.WriteString("services:\n  s:\n    image: x\n    labels:\n      probe: " + string(q) + "\n" + c17ExtrasYaml)
 	} else {
 		b.WriteString(fmt.Sprintf("x-doc: \"%d.%d\"\n", fi, di))
 	}
@@ -112,9 +112,12 @@ var c17NameRe = regexp.MustCompile(`^[a-z0-9][a-z0-9_-]*$`)
 
 type c17Real struct {
 	Ok *struct {
-		Name  string            `json:"name"`
-		Env   map[string]string `json:"env"`
-		Probe string            `json:"probe"`
+		Name     string            `json:"name"`
+		Env      map[string]string `json:"env"`
+		Probe    string            `json:"probe"`
+		Profiles []string          `json:"profiles"`
+		Enabled  map[string]bool   `json:"enabled"`
+		Res      map[string]string `json:"res"`
 	} `json:"ok"`
 	Err string `json:"err"`
 	At  string `json:"at"`
@@ -209,6 +212,16 @@ func c17Judge(args, real, drv json.RawMessage) *core.Verdict {
 		}
 		if v, ok := r.Ok.Env["COMPOSE_PROJECT_NAME"]; !ok || v != r.Ok.Name {
 			return core.Fail("name-not-exported", fmt.Sprintf("Project.Name=%q but Environment[COMPOSE_PROJECT_NAME]=%q (set=%v)", r.Ok.Name, v, ok))
+		}
+		// the name decided above is the name of the project *everywhere*: resources without a `name:` of their own
+		for _, k := range c17ResKeys {
+			if got, want := r.Ok.Res[k], r.Ok.Name+"_"+k; got != want {
+				return core.Fail("implicit-resource-name:expected="+c17Source(s, r.Ok.Name)+",got="+c17ResSource(s, got, k),
+					fmt.Sprintf("Project.Name=%q but the unnamed resource %q is called %q (want %q)", r.Ok.Name, k, got, want))
+			}
+		}
+		if v := c17ProfileOracle(args, r.Ok.Profiles, r.Ok.Enabled, s); v != nil {
+			return v
 		}
 		if s.BadName {
 			return core.Fail("invalid-explicit-name-accepted", "an explicitly requested name that is not [a-z0-9][a-z0-9_-]* was accepted")
